@@ -129,6 +129,7 @@ def gen_exprs(depth):
             "1 == 1.0 == True", "len('True') == 4", "'true' == 'true'", "len('false')", "'a and b'", "len(' or ')", "[1, 2] == [1, 2]", "['\\/']", '["\\/"]', '["\\u0041"]', "[1e400]", "[1, 2, 3]", "[true]", "[null]",
             "(1) and (2)", "0 or 5", "'' or 'x'", "1 and 0 and 3", "not 0", "not ''", "True + True", "10 / 4", "10 // 4", "-7 // 2", "-7 % 3", "2 ** 10", "2 ** 0.5",
             "+'a'", "+[1]", "+(1, 2)", "+(1 < 2)", "[+(2 > 1), +(2 < 1)]", "-(1 < 2)", "+5", "-(+3) * 2",
+            "2 ^ 3", "len('2^10')", "'x^y' + '!'", "('^', 1)", "'a&b|c~d'", "len('1 if 2 else 3')", "'not x' == 'not x'", "len('**') + len('//')",
             "inf", "tau", "sqrt(16)", "log(e)", "gcd(12, 18)", "factorial(5)", "degrees(pi)", "atan2(1, 1)", "trunc(-2.5)", "ceil(2.1)"]
     return list(dict.fromkeys(out))
 
